@@ -50,6 +50,7 @@ type Violation struct {
 	Inputs   []uint64 // model value per nondet, call order
 	Kinds    []string
 	Sched    []uint64 // values of 'c' decisions, in order
+	Spawned  bool     // goroutines other than the harness's own ran on this path: a native run may interleave them differently
 	Known    []string // ids of known findings matching (all violating inputs on the path are listed)
 	Unlisted bool     // some violating input on this path is not covered by a known finding
 	Trace    []Decision
@@ -554,6 +555,7 @@ func (ex *Exec) assert(cv value, label string) {
 	v := Violation{Label: label, Pos: pos}
 	v.Inputs, v.Kinds = ex.modelInputs(m)
 	v.Sched = ex.schedChoices()
+	v.Spawned = len(ex.gs) > 1
 	v.Observes = append([]string(nil), ex.ps.observes...)
 	// known-finding classification: is there a violating input on this path
 	// that no listed known finding covers?
